@@ -29,6 +29,7 @@ static int _notify_connect(void *ctx, MPT_INTERFACE(convertable) *val, const MPT
 			return in ? MPT_ERROR(BadOperation) : MPT_ERROR(BadValue);
 		}
 		if ((ret = mpt_notify_add(no, POLLIN, in)) < 0) {
+			in->_vptr->meta.unref((void *) in);
 			return ret;
 		}
 		return 1;
@@ -69,6 +70,7 @@ static int _notify_listen(void *ctx, MPT_INTERFACE(convertable) *val, const MPT_
 			return in ? MPT_ERROR(BadOperation) : MPT_ERROR(BadValue);
 		}
 		if ((ret = mpt_notify_add(no, POLLIN, in)) < 0) {
+			in->_vptr->meta.unref((void *) in);
 			return ret;
 		}
 		return 1;
